@@ -335,7 +335,7 @@ def main_check(cid, tier, replay=None):
 
     cov = dict(evaluations=tot.evaluations, distinct_nontrivial=len(nontriv), rule=mod.RULE,
                samples=tot.samples or [show(mod, c) for c in fixed[:3]],
-               classes=dict(sorted(tot.classes.items(), key=lambda kv: -kv[1])[:60]),
+               classes=dict(sorted(tot.classes.items(), key=lambda kv: -kv[1])[:200]),
                fixed_cases=len(fixed), generated_cases=tot.evaluations - len(fixed) if tot.evaluations >= len(fixed) else 0,
                shrink_executions=tot.shrink_runs, excluded_known=dict(tot.known),
                inconclusive=tot.inconclusive, discarded=tot.discarded, unreproduced=unrepro,
